@@ -3,10 +3,10 @@
     [calls_ok ok m] says that every call the program [m] can issue satisfies
     [ok], whatever the layers reply (the continuations are functions of the
     reply, so failing and faulted executions are covered). *)
-From stdpp Require Import list.
+From stdpp Require Import gmap list.
 From Coq Require Import NArith.
 From VFS Require Import Core.Types Core.Prog Core.Calls Layer.VfsPath Layer.Overlay Layer.Config Layer.Run
-  Base.Store Base.MemFS Proofs.CallsOk Proofs.AdapterOk Proofs.ConfigOk.
+  Base.Store Base.MemFS Base.Handles Proofs.CallsOk Proofs.AdapterOk Proofs.ConfigOk Proofs.LowerKept.
 
 (** For ANY implementations of the layers (memory, physical, altroot, nested
     overlays, custom filesystems): if the write layer tolerates every call and each
@@ -52,6 +52,43 @@ Example C08_example :
   consistent f /\ wbases f = [0].
 Proof. cbn. repeat split; intros; discriminate. Qed.
 
+(** the same for the STATE, every kind of base at once (proofs in Proofs/LowerKept.v).
+    [kept i X st]: the deep snapshot of base [i] -- its whole contents, every time stamp
+    except the access times of a MemoryFS (D20 below) -- is [X], and no open handle can
+    write to base [i].  Every call of every consistent stacking keeps it for every base
+    that is not below the write path; so do the calls of any program that sends mutating
+    calls to the write bases only, and whatever the caller does afterwards with the
+    handles it was given. *)
+Theorem C08_other_bases_kept : forall (f : fsref) (i : nat) (X : option bstate) c (st : store),
+  consistent f -> i ∉ wbases f -> kept i X st ->
+  kept i X (fst (run bhandler (interp f c) st)).
+Proof. exact stacking_keeps_other_bases. Qed.
+
+Theorem C08_programs_keep_other_bases : forall (W : list nat) (i : nat) (X : option bstate) R (m : bprog R) (st : store),
+  i ∉ W -> calls_ok (mut_in W) m -> kept i X st -> kept i X (fst (run bhandler m st)).
+Proof. exact writes_keep_other_bases. Qed.
+
+Theorem C08_handle_ops_keep_other_bases : forall (i : nat) (X : option bstate) (ops : list (hid * hop)) (st : store),
+  kept i X st ->
+  kept i X (fold_left (fun s ho => fst (handle_op (fst ho) (snd ho) s)) ops st).
+Proof. exact handle_ops_keep_other_bases. Qed.
+
+(** non-vacuity: a lower memory layer holding a file, an open writer on the upper layer and a
+    reader on the lower one; the premises hold with the lower layer's own snapshot *)
+Example C08_kept_example :
+  let lower : gmap (list (list N)) memfile :=
+    <[ [[102%N]] := mkMemFile File [1%N; 2%N] TAuto (Some TAuto) None ]> mem_new in
+  let st := mkStore [BMem mem_new; BMem lower]
+                    [HMemWriter 0 [[103%N]] [7%N] 1; HMemReader [1%N; 2%N] 0] [] None IoOff in
+  kept 1 (lview 1 st) st /\ 1 ∉ wbases (FOvl 2 (FBase 0 0, []) [(FBase 1 1, [])]) /\
+  consistent (FOvl 2 (FBase 0 0, []) [(FBase 1 1, [])]).
+Proof.
+  cbn. split; [split; [|reflexivity]|split].
+  - repeat constructor; cbn; intros H; try discriminate; tauto.
+  - intros H. apply elem_of_list_singleton in H. discriminate.
+  - repeat split; intros; discriminate.
+Qed.
+
 (** KNOWN FINDING (D20), kept visible: the statement "no operation re-times anything
     in a lower layer" is false of the faithful model, because MemoryFS::open_file
     itself stamps the access time of the file it opens.  Witness: reading a
@@ -75,4 +112,8 @@ Print Assumptions C08_writes_below_write_path.
 Print Assumptions C08_overlay_writes_layer0.
 Print Assumptions C08_preserved.
 Print Assumptions C08_example.
+Print Assumptions C08_other_bases_kept.
+Print Assumptions C08_programs_keep_other_bases.
+Print Assumptions C08_handle_ops_keep_other_bases.
+Print Assumptions C08_kept_example.
 Print Assumptions C08_retimes_witness.
